@@ -2,7 +2,7 @@
 // stdin: one job per line
 //   A <progs> <sched>             SparseBitMap<MODEL_BITS>::set under the cooperative scheduler, state dumped after every step
 //                                 progs "0,9;4" = model indices per thread (index m is mapped to (m>>LW)*64 + (m & (2^LW-1)))
-//   T <dim> <h|n> <progs> <sched> Trie<dim>::insert by several threads, then the sequential query phase
+//   T <dim> <h|n>[b] <progs> <sched> Trie<dim>::insert by several threads, then the sequential query phase (b: with lower/upper_bound)
 //                                 progs "1:2,3:4;5:6" (tuples ':'-joined, ',' between tuples, ';' between threads); h = the
 //                                 thread keeps one op_context (temporal-locality hints), n = a fresh one per call
 //   sched: "1,2,2,1"              explicit (1-based thread per step), then round-robin drain
@@ -254,7 +254,7 @@ struct BoundsQ {
     }
 };
 template <unsigned D>
-static void queries(const Trie<D>& trie, const std::vector<std::vector<Tup<D>>>& progs, bool hints, std::size_t maxProbes,
+static void queries(const Trie<D>& trie, const std::vector<std::vector<Tup<D>>>& progs, bool hints, bool ordered, std::size_t maxProbes,
         std::vector<std::string>& out) {
     std::vector<Tup<D>> all;
     std::set<RamDomain> keys;
@@ -309,7 +309,7 @@ static void queries(const Trie<D>& trie, const std::vector<std::vector<Tup<D>>>&
     // lower_bound / upper_bound are not named by the property statement, and they abort (assertion) on some sparse key sets:
     // they run in a forked child so that an abort cannot take the driver down; where their own preconditions hold only
     // (no negative key in the trie, no component at INT_MAX, where "sub[0] += 1" overflows)
-    if (!anyNegative) {
+    if (ordered && !anyNegative) {
         for (auto& e : out) std::printf("V %s\n", e.c_str());
         out.clear();
         std::fflush(stdout);
@@ -345,6 +345,7 @@ template <unsigned D>
 struct TrieJob {
     std::vector<std::vector<Tup<D>>> progs;
     bool hints;
+    bool ordered = false;  // also query lower_bound / upper_bound (in a forked child)
     int n;
     // one execution under the cooperative scheduler.  choose(k, enabled, cur) -> thread to run, or -1 to stop and drain.
     template <typename Choose>
@@ -404,7 +405,7 @@ struct TrieJob {
         for (auto& x : th) x.join();
         for (auto& e : events) std::printf("V %s\n", e.c_str());
         std::vector<std::string> q;
-        queries<D>(trie, progs, hints, 16, q);
+        queries<D>(trie, progs, hints, ordered, 16, q);
         for (auto& e : q) std::printf("V %s\n", e.c_str());
         std::printf("E\n");
         lastSteps = executed;
@@ -444,7 +445,7 @@ struct TrieJob {
         std::printf("J %ld %ld\nD stress\n", job, gLine);
         for (auto& e : allEv) std::printf("V %s\n", e.e.c_str());
         std::vector<std::string> q;
-        queries<D>(trie, progs, hints, 40, q);
+        queries<D>(trie, progs, hints, ordered, 40, q);
         for (auto& e : q) std::printf("V %s\n", e.c_str());
         std::printf("E\n");
     }
@@ -543,9 +544,10 @@ struct TrieJob {
 };
 
 template <unsigned D>
-static void runT(long& job, bool hints, const std::string& progStr, const std::string& schedStr) {
+static void runT(long& job, bool hints, bool ordered, const std::string& progStr, const std::string& schedStr) {
     TrieJob<D> j;
     j.hints = hints;
+    j.ordered = ordered;
     for (auto& p : split(progStr, ';')) {
         std::vector<Tup<D>> v;
         for (auto& t : split(p, ','))
@@ -570,13 +572,14 @@ int main() {
             runA(job++, f[1], f.size() > 2 ? f[2] : "");
         } else if (f[0] == "T") {
             unsigned d = (unsigned)std::stoul(f[1]);
-            bool h = f[2] == "h";
+            bool h = f[2][0] == 'h';
+            bool ob = f[2].find('b') != std::string::npos;
             std::string sched = f.size() > 4 ? f[4] : "";
             switch (d) {
-                case 1: runT<1>(job, h, f[3], sched); break;
-                case 2: runT<2>(job, h, f[3], sched); break;
-                case 3: runT<3>(job, h, f[3], sched); break;
-                case 4: runT<4>(job, h, f[3], sched); break;
+                case 1: runT<1>(job, h, ob, f[3], sched); break;
+                case 2: runT<2>(job, h, ob, f[3], sched); break;
+                case 3: runT<3>(job, h, ob, f[3], sched); break;
+                case 4: runT<4>(job, h, ob, f[3], sched); break;
                 default: std::printf("J %ld %ld\nERR bad dimension\nE\n", job++, gLine);
             }
         }
